@@ -4,6 +4,7 @@ use crate::rng::Rng;
 
 pub mod c01;
 pub mod c02;
+pub mod c14;
 pub mod c19;
 pub mod c05;
 pub mod c06;
@@ -12,7 +13,7 @@ pub mod c10;
 
 /// run the real code for one request; None = unknown function
 pub fn run(r: &Req) -> Option<String> {
-    c01::run(r).or_else(|| c02::run(r)).or_else(|| c19::run(r)).or_else(|| c06::run(r)).or_else(|| c07::run(r)).or_else(|| c10::run(r))
+    c01::run(r).or_else(|| c02::run(r)).or_else(|| c14::run(r)).or_else(|| c19::run(r)).or_else(|| c06::run(r)).or_else(|| c07::run(r)).or_else(|| c10::run(r))
 }
 
 /// (request lines, whether the enumerated part was exhaustive over its stated bounds)
@@ -20,6 +21,7 @@ pub fn generate(prop: &str, tier: &str, rng: &mut Rng) -> (Vec<String>, bool) {
     match prop {
         "C01" => c01::generate(tier, rng),
         "C02" => c02::generate(tier, rng),
+        "C14" => c14::generate(tier, rng),
         "C19" => c19::generate(tier, rng),
         "C05" => c05::generate(tier, rng),
         "C06" => c06::generate(tier, rng),
@@ -33,6 +35,7 @@ pub fn rule(prop: &str, tier: &str) -> String {
     match prop {
         "C01" => c01::rule(tier),
         "C02" => c02::rule(tier),
+        "C14" => c14::rule(tier),
         "C19" => c19::rule(tier),
         "C05" => c05::rule(tier),
         "C06" => c06::rule(tier),
@@ -74,6 +77,7 @@ pub fn valid_case(prop: &str, r: &Req) -> bool {
     match prop {
         "C01" => c01::valid_case(r),
         "C02" => c02::valid_case(r),
+        "C14" => c14::valid_case(r),
         "C19" => c19::valid_case(r),
         "C05" => c05::valid_case(r),
         "C06" => c06::valid_case(r),
@@ -84,8 +88,11 @@ pub fn valid_case(prop: &str, r: &Req) -> bool {
 }
 
 /// branch / regime tags for the evidence histogram
-pub fn tags(_prop: &str, r: &Req, imp: &str) -> Vec<String> {
+pub fn tags(prop: &str, r: &Req, imp: &str) -> Vec<String> {
     let mut t = vec![];
+    if prop == "C14" {
+        t.extend(c14::tags(r, imp));
+    }
     if r.has("w") && r.has("xs") {
         let len = r.list("xs").len();
         let w = r.usize("w");
@@ -119,6 +126,9 @@ pub fn nontrivial(_prop: &str, r: &Req, imp: &str) -> bool {
 }
 
 /// classifier for recorded known findings (known_findings.json ids); None = not a known finding
-pub fn known_finding(_prop: &str, _r: &Req, _imp: &str, _spec: &str) -> Option<String> {
-    None
+pub fn known_finding(prop: &str, r: &Req, imp: &str, spec: &str) -> Option<String> {
+    match prop {
+        "C14" => c14::known_finding(r, imp, spec),
+        _ => None,
+    }
 }
